@@ -86,6 +86,7 @@ type deferred struct {
 	fnVal Val
 	args  []Val
 	recv  *LocalRef
+	guard Val // condition under which the defer statement was executed on this path ("" = always)
 }
 
 type State struct {
@@ -95,6 +96,7 @@ type State struct {
 	next   Val
 	defers []deferred
 	iters  map[ssa.Value]Val // visited sets of map iterators
+	iterN  map[ssa.Value]Val // number of keys delivered so far by each map iterator
 	oldOv  map[string]Val    // old() overrides: protected state rebased at lock acquisition on this path
 	epochs []*lazyEpoch      // havoc events whose not-yet-materialised heaps get one deterministic fresh constant each
 }
@@ -143,6 +145,12 @@ func (s *State) clone() *State {
 	for k, v := range s.iters {
 		n.iters[k] = v
 	}
+	if len(s.iterN) > 0 {
+		n.iterN = map[ssa.Value]Val{}
+		for k, v := range s.iterN {
+			n.iterN[k] = v
+		}
+	}
 	n.defers = append([]deferred{}, s.defers...)
 	return n
 }
@@ -159,19 +167,20 @@ type LocalRef struct {
 }
 
 type Frame struct {
-	fn      *ssa.Function
-	vals    map[ssa.Value]Val
-	tuples  map[ssa.Value][]Val
-	lrefs   map[ssa.Value]*LocalRef
-	params  map[string]Val // entry values of params by name
-	loops   map[*ssa.BasicBlock]*loopInfo
-	fc      *FuncContract
-	prefix  string // obligation-name prefix for inlined frames
-	depth   int
-	oldSt   *State
-	results []Val
-	parent  *Frame
-	edgeR   map[[2]*ssa.BasicBlock]Val
+	fn       *ssa.Function
+	vals     map[ssa.Value]Val
+	tuples   map[ssa.Value][]Val
+	lrefs    map[ssa.Value]*LocalRef
+	params   map[string]Val // entry values of params by name
+	loops    map[*ssa.BasicBlock]*loopInfo
+	fc       *FuncContract
+	prefix   string // obligation-name prefix for inlined frames
+	depth    int
+	oldSt    *State
+	results  []Val
+	parent   *Frame
+	edgeR    map[[2]*ssa.BasicBlock]Val
+	lastIter ssa.Value
 }
 
 type loopInfo struct {
@@ -922,17 +931,76 @@ func (e *Enc) merge(edges []edgeState, label string) *State {
 			out.iters[k] = mergeVals("it", vals)
 		}
 	}
-	// defers: must agree
-	out.defers = append([]deferred{}, edges[0].st.defers...)
+	itN := map[ssa.Value]bool{}
+	for _, ed := range edges {
+		for k := range ed.st.iterN {
+			itN[k] = true
+		}
+	}
+	for k := range itN {
+		var vals []Val
+		all := true
+		for _, ed := range edges {
+			v, ok := ed.st.iterN[k]
+			if !ok {
+				all = false
+				break
+			}
+			vals = append(vals, v)
+		}
+		if all {
+			if out.iterN == nil {
+				out.iterN = map[ssa.Value]Val{}
+			}
+			out.iterN[k] = mergeVals("itn", vals)
+		}
+	}
+	// defers: stacks that differ (a defer inside a branch) are merged into guarded entries
+	same := true
 	for _, ed := range edges[1:] {
-		if len(ed.st.defers) != len(out.defers) {
-			e.failed = fmt.Errorf("%s: conditional defer (defer stacks differ at a join) is outside the supported subset", e.Unit)
+		if len(ed.st.defers) != len(edges[0].st.defers) {
+			same = false
 			break
 		}
-		for i := range out.defers {
-			if ed.st.defers[i].instr != out.defers[i].instr {
-				e.failed = fmt.Errorf("%s: conditional defer is outside the supported subset", e.Unit)
+		for i := range ed.st.defers {
+			if ed.st.defers[i].instr != edges[0].st.defers[i].instr || ed.st.defers[i].guard.T != edges[0].st.defers[i].guard.T {
+				same = false
 			}
+		}
+	}
+	if same {
+		out.defers = append([]deferred{}, edges[0].st.defers...)
+	} else {
+		// ordered union by first appearance; guard = OR over the edges that carry the entry
+		var order []*ssa.Defer
+		seen := map[*ssa.Defer]bool{}
+		for _, ed := range edges {
+			for _, d := range ed.st.defers {
+				if !seen[d.instr] {
+					seen[d.instr] = true
+					order = append(order, d.instr)
+				}
+			}
+		}
+		for _, in := range order {
+			var proto deferred
+			var gs []Val
+			for _, ed := range edges {
+				for _, d := range ed.st.defers {
+					if d.instr == in {
+						proto = d
+						g := d.guard
+						if g.T == "" {
+							g = True
+						}
+						gs = append(gs, And(ed.cond, g))
+					}
+				}
+			}
+			gv := e.fresh("dg", SBool)
+			e.fact(Eq(gv, Or(gs...)))
+			proto.guard = gv
+			out.defers = append(out.defers, proto)
 		}
 	}
 	return out
